@@ -101,7 +101,10 @@ def seeded_neutral_variants(prop):
             continue
         if meta.get("property") != prop or meta.get("excluded"):
             continue
-        out.append({"id": "neutral-" + sid, "patch": os.path.join("seeded_neutral", sid, "patch.diff"), "expect": None})
+        # "accept_undecided": rules that may honestly answer UNDECIDED on this rewrite (a documented limit of the analysis,
+        # DESIGN.md section 6); a VIOLATION on a behaviour-preserving change is never accepted
+        out.append({"id": "neutral-" + sid, "patch": os.path.join("seeded_neutral", sid, "patch.diff"), "expect": None,
+                    "accept_undecided": meta.get("accept_undecided", [])})
     return out
 
 
@@ -151,6 +154,7 @@ def _one(args):
     u = _keys(ctx, report.UNDECIDED) - base_u
     exp = variant.get("expect")
     if exp is None:
+        u = {k for k in u if k[0] not in variant.get("accept_undecided", ())}
         if v or u:
             k = sorted(v | u)[0]
             return variant["id"], "failed", "neutral edit raised %s at %s :: %s" % (k[0], k[2], k[3])
